@@ -1047,6 +1047,12 @@ class Engine:
                 raise Unsupported('iteration through __iter__')
         if isinstance(v, FrozenDict):
             return list(v.d.keys())
+        from .loops import SRange, _range_items_if_decided
+        if isinstance(v, SRange):
+            items = _range_items_if_decided(self, v, st)      # symbolic range whose trip count the path condition fixes
+            if items is None:
+                raise Unsupported('iteration over a range whose length the path condition does not fix')
+            return items
         if isinstance(v, (tuple, list, range, frozenset, str)):
             if isinstance(v, range) and len(v) > 4096:
                 raise Unsupported('long concrete range')
@@ -1420,6 +1426,16 @@ class Engine:
                             done = True
                     elif h.kind == 'list' and isinstance(n.op, ast.Add):
                         h.items.extend(self.iter_concrete(rhs, s2))
+                        outs.append(('fall', s2))
+                        done = True
+                    elif h.kind == 'acc' and isinstance(n.op, ast.Add):
+                        # accumulator abstraction (count, last, joined): `t += [x, ...]` is a sequence of appends
+                        for x in self.iter_concrete(rhs, s2):
+                            if not is_byteslike(x):
+                                raise Unsupported('accumulator list: += of a non-bytes item')
+                            cnt, _last, joined = h.items
+                            h.items = [mk_int(zint(cnt) + 1), x, mk_bytes(z3.Concat(zbytes(joined), zbytes(x)))]
+                        s2.writes.append((cur.oid, '<items>'))
                         outs.append(('fall', s2))
                         done = True
                     elif h.kind == 'bytearray' and isinstance(n.op, ast.Add):
